@@ -6,7 +6,9 @@ import GoomVerif.Model.Stub
         → per request `H+<addr-min>:<len>` | `M:<len>` | `E`, then `off=+<off-min>`
     `c20.sched <off> <min> <max> <len,len,…> <i,i,…>`   run a schedule of micro-steps → per requester result
     `c20.admits <off> <min> <max> <len,…> <res,…> <ev,…>`   res = `o<addr-min>` | `e` | `n`; ev = `i<k>` | `r<k>`
-        → `admitted` | `rejected` | `malformed` -/
+        → `admitted` | `rejected` | `malformed`
+    `c20.explains <off> <min> <max> <len,…> <res,…> <i,i,…>`   does this schedule reproduce every observed result?
+        → `explained` | `unexplained` | `malformed` -/
 namespace Drv.C20
 open Stub
 
@@ -68,6 +70,17 @@ def handle (toks : List String) : Option String :=
         if !h.wellFormed then some "malformed" else some (if admits h then "admitted" else "rejected")
       | _, _ => some "bad-op"
     | _, _, _, _ => some "bad-op"
+  | ["c20.explains", off, min, max, lens, res, sched] =>
+    match parseNat off, parseNat min, parseNat max, splitNats lens, splitNats sched with
+    | some off, some min, some max, some ls, some σ =>
+      let rtoks := if res = "-" then [] else res.splitOn ","
+      if rtoks.length ≠ ls.length then some "malformed" else
+      match (rtoks.zip ls).mapM (fun (r, l) => parseRes min l r) with
+      | some rs =>
+        let h : Hist := ⟨off, min, max, ls, rs, []⟩
+        if !h.wellFormed then some "malformed" else some (if explains h σ then "explained" else "unexplained")
+      | none => some "bad-op"
+    | _, _, _, _, _ => some "bad-op"
   | tok :: _ => if tok.startsWith "c20." then some "bad-op" else none
   | [] => none
 
